@@ -255,13 +255,47 @@ def oracle_reactor(ctx, rng, n):
         shutil.rmtree(d, ignore_errors=True)
 
 
+def regions_correspondence(ctx, rng, n):
+    """Model/Regions.lean vs the real Assembly._identify_active_region: random increasing region bounds on the 1e-12 m grid and
+    planes on, just below and just above them"""
+    from dassh.assembly import Assembly
+    reqs, want = [], []
+    for k in range(n):
+        nb = rng.randint(1, 4)
+        b = [0] + sorted(rng.sample(range(1, 2 * 10 ** 12), nb - 1)) if nb > 1 else [0]
+        zs = [0]
+        for x in b[1:]:
+            zs += [x - 1, x, x + 1]
+        zs += [rng.randint(1, 2 * 10 ** 12) for _ in range(4)] + [2 * 10 ** 12]
+        a = Assembly.__new__(Assembly)
+        a.region_bnd = [x * 1e-12 for x in b]
+        # planes as the Reactor makes them: multiples of 1e-12 m, rounded to 12 digits; bounds rounded the same way
+        a.region_bnd = [float(np.around(x, 12)) for x in a.region_bnd]
+        real = [int(a._identify_active_region(float(np.around(z * 1e-12, 12)))) for z in zs]
+        reqs.append("region %s | %s" % (" ".join(map(str, b)), " ".join(map(str, zs))))
+        want.append(real)
+    bad = 0
+    for rep, w, rq in zip(modelio.ask(reqs), want, reqs):
+        parts = rep.split()
+        if parts[0] != "ok" or list(map(int, parts[1:])) != w:
+            bad += 1
+            if bad == 1:
+                ctx.problem("correspondence", "Model.Regions.activeRegion vs Assembly._identify_active_region",
+                            "%s -> model %s, code %s" % (rq[:200], parts[1:], w))
+    ctx.obligation("correspondence: Model.Regions.activeRegion = Assembly._identify_active_region on %d bound lists "
+                   "(planes on / next to every bound)" % n, bad == 0, kind="correspondence", detail="disagreements %d" % bad)
+    ctx.evals += n
+
+
 def run(ctx):
     rng = random.Random(5000 + ctx.seed)
     ctx.rule = ("T3: generated (boundaries, step, length) triples incl. nearly coincident planes and micrometre..centimetre "
                 "steps, real stub Reactor vs Lean model; oracle: full Reactor constructions with random step requests, "
                 "axial planes, unrodded regions, tiny gap flow; non-trivial = distinct generated case")
     ok = ctx.prove("Dassh.Props.C05")
+    ctx.prove("Dassh.Props.C05Regions")
     if modelio.build_driver(ctx):
+        regions_correspondence(ctx, rng, 400 if ctx.thorough else 100)
         n = 1500 if ctx.thorough else 300
         b1 = correspondence(ctx, rng, n)
         b2 = correspondence_merge(ctx, rng, n // 3)
